@@ -416,3 +416,57 @@ REGISTRY["C19"]["partial_clauses"][0] = ("mass clause: the along-wind grid sums 
     "kmFy_continuousOn and km_mass_within_extent; the upper incomplete gamma function is written as its defining integral because Mathlib has none); the crosswind Gaussian has unit "
     "mass (km_crosswind_gaussian_unit_mass). What stays numeric (oracle, scipy.special.gammaincc): the two-dimensional cell sum, i.e. that the crosswind sums of the Gaussian over a "
     "window of +-8 sigma reach its unit mass at the same time")
+
+# C01: the top condition Q = Kz*lambda*P IS the decaying constant-coefficient continuation above the top node
+REGISTRY["C01"]["theorems"] += T("Proofs.C01d", "BLDFM.C01", ["growing_component", "decaying_component", "continuation_decays", "bounded_iff_top_condition",
+                                                               "eigval_sq_Tcoef", "column_continuation_decays"])
+REGISTRY["C01"]["partial_clauses"][0] = (
+    "first-order convergence of the returned column to the exact boundary-value solution is a THEOREM (column_first_order: error <= K*exp(L h)*C*delta*h for "
+    "Lipschitz coefficient functions sampled at the nodes, any exact pair of fundamental solutions bounded by M, exact shooting denominator >= d > 0, delta <= 1 "
+    "fine enough); that the top condition q = Kz*lambda*p IS the decaying constant-coefficient continuation above the top node is a THEOREM too "
+    "(bounded_iff_top_condition: a solution of the frozen-coefficient equations above the top node stays bounded iff it meets the top condition, and then it is "
+    "P(z_N) e^{-lambda (z - z_N)}; column_continuation_decays for the returned column); what stays outside Lean: existence/boundedness of the exact fundamental "
+    "solutions below the top node (standard linear-ODE theory, taken as hypotheses) and the literal 2.5x-per-quartering figure (pre-asymptotic constant): decided "
+    "numerically by the oracle against the Riccati reference")
+
+# C12 / C02 precision clause: storage rounding is the only difference between the precisions, with an explicit field bound
+_PREC = T("Proofs.C12b", "BLDFM.C12", ["single_is_rounded_double", "double_unrounded", "norm_rootPow", "norm_shiftFactor", "field_perturbation",
+                                        "single_vs_double_bound", "field_bound_of_coef_bound", "double_rounding"])
+REGISTRY["C12"]["theorems"] += _PREC
+REGISTRY["C02"]["theorems"] += _PREC
+REGISTRY["C12"]["partial_clauses"] = [
+    "that the serial and the parallel numba kernel variants, FFTW's planner (wisdom file, plan cache, thread count) and numba's thread scheduling give bit-identical / "
+    "1e-12-equal numbers: OBSERVED by the oracle on histories, not proved",
+    "single vs double precision: a THEOREM in the model for any storage rounding of relative error eps - the single-precision coefficients are the rounded double-precision "
+    "ones (single_is_rounded_double) and every cell of both fields differs by at most eps * (l1 norm of the double-precision spectrum) (single_vs_double_bound; 2 eps + eps^2 "
+    "for the analytic branch's twice-rounded concentration, double_rounding); the property's figure '1e-5 of the field maximum' relates that l1 norm to the field maximum, "
+    "which depends on the source: observed by the oracle"]
+REGISTRY["C02"]["partial_clauses"] = ["single precision: both reciprocity identities are theorems through the whole model pipeline over exact arithmetic; in single precision each side moves by "
+                                      "at most eps * (l1 norm of its spectrum) (C12.single_vs_double_bound), so the identity holds to that accuracy; IEEE rounding of the double-precision "
+                                      "arithmetic itself is outside the model"]
+
+# C08 upwind clause, per Fourier component (uniform profiles): Im(lambda) has the sign of U.L, so every component's crest is displaced against the wind
+REGISTRY["C08"]["theorems"] += T("Proofs.C08b", "BLDFM.C08", ["csqrt_im_sign", "csqrt_im_sign_strict", "eigval_im_sign", "eigval_im_sign_strict", "mode_wave", "mode_crest",
+                                                               "mode_crest_upwind", "mode_crest_upwind_strict", "footprint_coef_analytic"])
+REGISTRY["C08"]["partial_clauses"] = [
+    "upwind clause: for height-independent profiles EVERY non-constant Fourier component of the footprint is a plane wave whose crest nearest the tower is displaced against the wind "
+    "(mode_crest_upwind / _strict, from eigval_im_sign: Im(lambda) has the sign of U.L; footprint_coef_analytic ties the wave to the model's footprint-mode coefficient); that the centre of "
+    "mass of the whole cropped footprint lies within a few degrees of the wind direction, for sheared profiles and arbitrary directions, is numeric (oracle, 8 degree threshold, worst observed "
+    "5.1): the half-space footprint has no finite first moment, so there is no exact infinite-domain statement to prove"]
+
+# C07: x-mirror in FOOTPRINT mode (mirrored tower) at field level; C08: cardinal-direction corollary (footprint symmetric about the wind axis)
+REGISTRY["C07"]["theorems"] += T("Proofs.C07g", "BLDFM.C07", ["mxfp_geom", "mxfp_srcSpectrum", "mirrorX_fp_component", "mirrorX_fp_shift", "mirrorX_footprint_field"])
+REGISTRY["C07"]["partial_clauses"] = ["float rounding",
+    "axis swap, length similarity, velocity similarity are theorems at FIELD level through the whole model pipeline; the x-mirror for every non-Nyquist component "
+    "(mirrorX_component, mirrorX_fp_component) and at field level when every slot has a partner (odd retained-mode count): dispersion mode with the measurement point at the "
+    "origin (mirrorX_field; mirrorY_field = transpose . mirrorX . transpose) and FOOTPRINT mode with the tower mirrored (mirrorX_footprint_field, on-grid tower); with an even "
+    "retained-mode count the Nyquist component has no partner (excluded by the statement) and the field identity is checked by the oracle with the Nyquist rows filtered",
+    "velocity similarity needs the background divided by the same factor (a non-zero background is not scaled by the flow) - stated so in the theorem"]
+REGISTRY["C08"]["theorems"] += T("Proofs.C08c", "BLDFM.C08", ["cardinal_footprint_symmetric"]) + T("Proofs.C07g", "BLDFM.C07", ["mirrorX_footprint_field"])
+REGISTRY["C08"]["partial_clauses"][0] = (
+    "upwind clause: (i) for a north / south wind (u = 0 exactly, wind_cardinals) the footprint is mirror-symmetric about the wind axis through a tower on the middle column "
+    "(cardinal_footprint_symmetric, from C07.mirrorX_footprint_field; odd retained-mode count): zero cross-wind offset; (ii) for height-independent profiles EVERY non-constant "
+    "Fourier component of the footprint is a plane wave whose crest nearest the tower is displaced against the wind (mode_crest_upwind / _strict, from eigval_im_sign: Im(lambda) "
+    "has the sign of U.L; footprint_coef_analytic ties the wave to the model's footprint-mode coefficient); that the centre of mass of the whole cropped footprint lies within a few "
+    "degrees of the wind direction, for sheared profiles and arbitrary directions, is numeric (oracle, 8 degree threshold, worst observed 5.1): the half-space footprint has no finite "
+    "first moment, so there is no exact infinite-domain statement to prove")
